@@ -172,6 +172,15 @@ def extract(repo):
         raise ValueError("getRealInstance no longer calls STEPread")
     before = gri[:k]
     early = any(re.search(r"\b" + re.escape(n) + r"\s*\(", before) for n in inserters) or "_instancesLoaded" in before
+    # how STEPread's input is positioned (model: stepReadInput / findOne): seekg( begin ); findNormalString( "(" ); one back
+    if not re.search(r'_file\.seekg\(\s*begin\s*\);\s*findNormalString\(\s*"\("\s*\);\s*_file\.seekg\(\s*_file\.tellg\(\)\s*-\s*std::streampos\(\s*1\s*\)\s*\);',
+                     before):
+        raise ValueError("getRealInstance: seekg( begin ); findNormalString( \"(\" ); seekg( -1 ) before STEPread not recognised")
+    fns = _strip_comments(_body(sr, r"sectionReader::findNormalString\s*\([^)]*\)\s*\{"))
+    order = [fns.find(x) for x in ("skipWS();", "c = _file.get();", "c == '\\''", "GetLiteralStr(", "_file.peek() == '*'", "str[i] == c")]
+    if -1 in order or order != sorted(order) or not re.search(r"c == '/' \) && \( _file\.peek\(\) == '\*' \) \) \{\s*skipComment\(\);", fns):
+        if not (n_old and not n_raw):      # the old shape called itself for comments: modelled by findStar only
+            raise ValueError("findNormalString: skipWS / get / string literal / comment / compare loop not recognised")
     li = _strip_comments(_body(mgr_cc, r"lazyInstMgr::loadInstance\s*\([^)]*\)\s*\{"))
     if "_instancesLoaded.find" not in li or "getRealInstance" not in li:
         raise ValueError("loadInstance: cache look-up / getRealInstance not found")
